@@ -843,3 +843,115 @@ Proof.
     rewrite Hpresent in Echk. cbn [negb p_when] in Echk. unfold p_ret in Echk. injection Echk as _ <-.
     split; [congruence|exact HrB].
 Qed.
+
+(* `extend <kw>` : both keywords are bumped unconditionally; the dispatch has seen them *)
+Definition rl_ext_kw (kw : str) (ts : list rg_token) : Prop :=
+  match ts with t1 :: t2 :: _ => rg_is_kw rg_s_extend t1 = true /\ rg_is_kw kw t2 = true | _ => False end.
+
+Lemma rl_sim_extend_kw {B} kw sk (rest : PM B) qrest :
+  rl_sim rl_any rest qrest ->
+  rl_sim (rl_ext_kw kw) (p_bump SK_extend_KW ;; p_bump sk ;; rest)
+    (rg_seq (rg_sat (rg_is_kw rg_s_extend)) (rg_seq (rg_sat (rg_is_kw kw)) qrest)).
+Proof.
+  intros Hrest. eapply rl_sim_bind_pre with (Q := rg_starts (rg_is_kw kw)).
+  - eapply rl_sim_weaken; [|apply rl_sim_bump]. intros [|t1 [|t2 ts]] H; try contradiction. exact (proj1 H).
+  - intros _. apply rl_sim_bind; [apply rl_sim_bump|intros _; exact Hrest].
+  - intros [|t1 [|t2 ts]] r Hp Hq; try contradiction. destruct Hp as [H1 H2]. cbn [rg_sat] in Hq. rewrite H1 in Hq.
+    injection Hq as <-. exact H2.
+Qed.
+
+Definition rgl_ext_named (kw : str) (tail : rg_p) : rg_p :=
+  rg_seq (rg_sat (rg_is_kw rg_s_extend)) (rg_seq (rg_sat (rg_is_kw kw)) (rg_seq rg_name tail)).
+
+Lemma rl_sim_union_type_extension f :
+  rl_sim (rl_ext_kw pkw_union) (g_union_type_extension f)
+    (rgl_ext_named pkw_union (rgl_ext2 false TkEq rg_unionmembers)).
+Proof.
+  unfold g_union_type_extension, rgl_ext_named. apply rl_sim_node. apply rl_sim_extend_kw.
+  apply rl_sim_bind; [apply rl_sim_name_or_err|intros _].
+  apply (rl_sim_ext2 false TkEq (g_union_member_types f) rg_unionmembers f (fun d m => d || m));
+    [discriminate|discriminate|apply rl_sim_union_member_types|reflexivity].
+Qed.
+Lemma rl_sim_enum_type_extension f :
+  rl_sim (rl_ext_kw pkw_enum) (g_enum_type_extension f)
+    (rgl_ext_named pkw_enum (rgl_ext2 false TkLCurly (rgl_enumvalsdef LP))).
+Proof.
+  unfold g_enum_type_extension, rgl_ext_named. apply rl_sim_node. apply rl_sim_extend_kw.
+  apply rl_sim_bind; [apply rl_sim_name_or_err|intros _].
+  apply (rl_sim_ext2 false TkLCurly (g_enum_values_definition f) (rgl_enumvalsdef LP) f (fun d v => d || v));
+    [discriminate|discriminate|apply rl_sim_enum_values_definition|reflexivity].
+Qed.
+Lemma rl_sim_input_object_type_extension f :
+  rl_sim (rl_ext_kw pkw_input) (g_input_object_type_extension f)
+    (rgl_ext_named pkw_input (rgl_ext2 false TkLCurly (rgl_inputfieldsdef LP))).
+Proof.
+  unfold g_input_object_type_extension, rgl_ext_named. apply rl_sim_node. apply rl_sim_extend_kw.
+  apply rl_sim_bind; [apply rl_sim_name_or_err|intros _].
+  apply (rl_sim_ext2 false TkLCurly (g_input_fields_definition f) (rgl_inputfieldsdef LP) f (fun d x => d || x));
+    [discriminate|discriminate|apply rl_sim_input_fields_definition|reflexivity].
+Qed.
+
+(* scalar: `extend scalar Name Directives` *)
+Lemma rl_sim_scalar_type_extension f :
+  rl_sim (rl_ext_kw pkw_scalar) (g_scalar_type_extension f)
+    (rgl_ext_named pkw_scalar (rg_seq (rg_peek (rg_is TkAt)) (rgl_scalar_tail LP))).
+Proof.
+  unfold g_scalar_type_extension, rgl_ext_named. apply rl_sim_node. apply rl_sim_extend_kw.
+  apply rl_sim_bind; [apply rl_sim_name_or_err|intros _].
+  apply rl_sim_peek_else_err; [discriminate| |].
+  - eapply rl_sim_ext; [|apply rl_sim_any, (rl_sim_directives f GConst)].
+    intros [|t ts] H; cbn [rg_starts] in H; [contradiction|]. unfold rg_seq, rg_peek. rewrite H. reflexivity.
+  - intros [|t ts] H; cbn [rl_head_is] in H; [reflexivity|]. unfold rg_seq, rg_peek. rewrite H. reflexivity.
+Qed.
+
+(* object / interface: implements?, then the two-part shape with the `implements` flag carried to the final check *)
+Definition g_objext_rest (f : nat) (i : bool) : PM unit :=
+  d <- g_peek_is TkAt ;; p_when d (g_directives f GConst) ;;
+  x <- g_peek_is TkLCurly ;; p_when x (g_fields_definition f) ;;
+  p_when (negb (i || d || x)) p_err.
+
+Definition rgl_objext : rg_p :=
+  fun ts => if rl_head_is (rg_is_kw rg_s_implements) ts
+            then rg_seq rg_implements (rgl_ext2 true TkLCurly (rgl_fieldsdef LP)) ts
+            else rgl_ext2 false TkLCurly (rgl_fieldsdef LP) ts.
+
+Lemma rl_sim_objext_rest f i :
+  rl_sim rl_any (g_objext_rest f i) (rgl_ext2 i TkLCurly (rgl_fieldsdef LP)).
+Proof.
+  unfold g_objext_rest.
+  apply (rl_sim_ext2 i TkLCurly (g_fields_definition f) (rgl_fieldsdef LP) f (fun d x => i || d || x));
+    [discriminate|discriminate|apply rl_sim_fields_definition|reflexivity].
+Qed.
+
+Lemma rl_sim_objext f :
+  rl_sim rl_any (i <- g_peek_data_is pkw_implements ;; p_when i (g_implements_interfaces f) ;; g_objext_rest f i) rgl_objext.
+Proof.
+  split.
+  { apply rl_gen_bind; [apply rl_gen_peek_data_is|intros i]. apply rl_gen_bind; [|intros _; apply rl_sim_objext_rest].
+    destruct i; cbn [p_when]; [apply rl_sim_implements_interfaces|apply rl_gen_ret]. }
+  intros s u s' E Hok Ht _. pose proof Hok as [Hinv Ha]. destruct (rl_inv_cur _ Hinv) as (t & Hc & Hi & _).
+  unfold p_bind at 1 in E. rewrite (peek_data_is_some pkw_implements t s Hc) in E.
+  rewrite (rl_peek_data_view _ _ pkw_implements Hinv Hc eq_refl) in E.
+  change (rg_is_kw pkw_implements) with (rg_is_kw rg_s_implements) in E.
+  unfold rl_sound, rl_complete, rgl_objext.
+  destruct (rl_head_is (rg_is_kw rg_s_implements) (rl_sigs s)) eqn:Hh; cbn [p_when] in E.
+  - assert (Hsim : rl_sim (rg_starts (rg_is_kw rg_s_implements)) (g_implements_interfaces f ;; g_objext_rest f true)
+                     (rg_seq rg_implements (rgl_ext2 true TkLCurly (rgl_fieldsdef LP)))).
+    { apply rl_sim_bind; [apply rl_sim_implements_interfaces|intros _; apply rl_sim_objext_rest]. }
+    apply (proj2 Hsim s u s' E Hok Ht). apply rl_starts_head. exact Hh.
+  - assert (E' : g_objext_rest f false s = POk (u, s')) by exact E.
+    exact (proj2 (rl_sim_objext_rest f false) s u s' E' Hok Ht I).
+Qed.
+
+Lemma rl_sim_object_type_extension f :
+  rl_sim (rl_ext_kw pkw_type) (g_object_type_extension f) (rgl_ext_named pkw_type rgl_objext).
+Proof.
+  unfold g_object_type_extension, rgl_ext_named. apply rl_sim_node. apply rl_sim_extend_kw.
+  apply rl_sim_bind; [apply rl_sim_name_or_err|intros _]. apply rl_sim_objext.
+Qed.
+Lemma rl_sim_interface_type_extension f :
+  rl_sim (rl_ext_kw pkw_interface) (g_interface_type_extension f) (rgl_ext_named pkw_interface rgl_objext).
+Proof.
+  unfold g_interface_type_extension, rgl_ext_named. apply rl_sim_node. apply rl_sim_extend_kw.
+  apply rl_sim_bind; [apply rl_sim_name_or_err|intros _]. apply rl_sim_objext.
+Qed.
